@@ -1,6 +1,6 @@
 """Claim texts for MANIFEST.json (tools/gen_manifest.py writes the file)."""
 
-REPO_FIX_COMMITS = ["d6b93bf (C15)", "bf9879b (C18)", "00db926 (C17)"]
+REPO_FIX_COMMITS = ["d6b93bf (C15)", "bf9879b (C18)", "00db926 (C17)", "69cf7c1 (C14)", "6437988 (C11)", "98f4235 (C11)", "507e814 (C12)"]
 
 _PENDING = "checker for this property is not built yet in this round (see DESIGN.md section 3 for the planned rule)"
 
@@ -40,6 +40,47 @@ CLAIMS = {
              "response generator. Not decided: exhaustive schedules (that is model checking), clock-vs-steps accounting."),
 }
 
+CLAIMS.update({
+    "C11": dict(
+        technique="kind dataflow (agent id vs list position) + LIFO/FIFO stage parity + delivered-xor-parked CFG rule",
+        design_ref="DESIGN.md 3/C11",
+        text="Decides the structure of the event pipeline for every history at once: the delivery site addresses the receiver "
+             "through an id-keyed lookup whose miss (dead id) is filtered, never through a position in the agent list; the "
+             "number of order-reversing stages between enqueue_event and the handler is even on the direct path and on the "
+             "delayed-event cycle; handle_delayed_event parks xor returns on every path and the distribution loop delivers "
+             "only what it returned; parked events are re-enqueued after the agent loop and the park list is reset; the inbox "
+             "is emptied on every normal exit of handle_events (fails today: known finding).",
+        note="Not decided: ceil(delay/dt) under the float countdown of DelayedEvent.delay; what user handlers do. Trusted: "
+             "list.append/pop semantics."),
+    "C12": dict(
+        technique="normal-form match of loop bounds + phase-order dataflow on the CFG of run_step + int-kind rule at range()",
+        design_ref="DESIGN.md 3/C12",
+        text="Decides that run() is range(start, stop+1) x range(round(1/dt)) with exactly one run_step per iteration wired to "
+             "the two loop variables and integer-kinded range arguments, that on every path of run_step the phases come in the "
+             "order distribute < begin_round < (handle_events < act, once each, agents in list order) < end_round < collect, "
+             "that every callback receives time = round + step*dt, that the no-collection predicate equals the last values "
+             "of the two loops (symbolic comparison of bounds), and that Model.run/run_step delegate unchanged.",
+        note="Not decided: user callbacks, HybridRunner thread scheduling, round(1/dt) for non-reciprocal dt."),
+    "C13": dict(
+        technique="access-path normal form of every store into the statistics table (fold-shape matching)",
+        design_ref="DESIGN.md 3/C13",
+        text="Decides the fold structure of collect_agent_statistics: one count increment per agent outside the property loop, "
+             "total += value from 0, min/max folded with the like-named builtin (or the equivalent comparison form) from their "
+             "own previous cell with the first value taken from the data, mean = total/count of the same cell after both were "
+             "updated, per-time reset; HybridRunner reads exactly the written keys, each aggregate branch stores under its own "
+             "key, empty states are zero-filled. A restructuring the matcher does not recognise is an ANALYSIS-ERROR, not a verdict.",
+        note="Not decided: numeric equality on populations (float summation), pandas."),
+    "C14": dict(
+        technique="kind dataflow (agent id vs list position) + who-may-write rules on next_agent_id / agents / agent_type_map",
+        design_ref="DESIGN.md 3/C14",
+        text="Decides for every history: no subscript of the agent list in Model is indexed by an agent id (with a positive "
+             "fixture, since the count is zero after the repair); next_agent_id is initialised once and otherwise only '+= 1', "
+             "exactly once between the factory call (which receives it) and the append; every writer of the agent list also "
+             "writes the per-type id map; delete_agents filters by id and rebuilds the id lists from the survivors; agent() "
+             "compares ids and answers None; agent_count is the length of the id list.",
+        note="Not decided: user agents overriding agent_type after creation; random_agents."),
+})
+
 NOT_APPLICABLE = {p: _PENDING for p in
-                  ["C01", "C02", "C03", "C04", "C05", "C06", "C07", "C08", "C09", "C10", "C11", "C12", "C13", "C14",
+                  ["C01", "C02", "C03", "C04", "C05", "C06", "C07", "C08", "C09", "C10",
                    "C16", "C19", "C20"]}
